@@ -38,6 +38,16 @@ CHECKS = {
         'Same model and correspondence as C01 plus the bookkeeping observables.',
    ref='DESIGN.md section 6 C09', note=COMMON_NOTE + ' The [0,1] range is proved for the cosine-squared window over R (real-number axioms of the Coq standard library); for scipy windows it is checked numerically.',
    technique='Coq proof (induction over draw histories) + vm_compute model outputs compared against stim.py'),
+ 'C19': dict(
+   text='A boolean name-resolution checker over scope trees is proved sound AND complete w.r.t. a relational model of Python scoping '
+        '(function/lambda/comprehension/class scopes, global/nonlocal, module globals, builtins, attribute chains on imported modules); '
+        'the scope trees of all ten modules and the dir() facts of the installed libraries are REGENERATED from the source on every run by a '
+        'fail-closed AST translator and re-checked by vm_compute (C19_<module>); the translator is cross-checked per code unit against the '
+        'global loads in the real bytecode.',
+   ref='DESIGN.md section 6 C19', note='Trusted: Coq kernel + vm_compute; translate/pynames2coq.py (fail-closed); dir() of the installed numpy/scipy/pandas/matplotlib; '
+        'the relational model of Python scoping (language reference 4.2.2). Locals that may be unbound, instance attributes and failing imports are outside the claim. '
+        'One known finding (util.iir reads undefined fs).',
+   technique='Coq proof (checker soundness/completeness) applied by vm_compute to a model regenerated from the source by a translator'),
 }
 
 PENDING = 'not yet built in this round (framework is being extended property by property; see DESIGN.md section 8)'
